@@ -153,7 +153,13 @@ type thSession struct {
 }
 
 func (s *thSession) fail(prop, sig, what string) {
-	if len(s.fails) < 5 {
+	n := 0
+	for _, f := range s.fails {
+		if f.Property == prop {
+			n++
+		}
+	}
+	if n < 5 {
 		cp := make([]thOp, len(s.ops))
 		copy(cp, s.ops)
 		s.fails = append(s.fails, MonitorFailure{Property: prop, Signature: sig, What: what, Replay: cp})
